@@ -210,30 +210,25 @@ func checkPrivileged(c *core.Ctx, fn *ssa.Function, g eng.NamedGuard, writers ma
 
 // cycleGuard: CommitDpos alternative "(height - view.Height) >= MaxBlockChangeView".
 func cycleGuard(c *core.Ctx) ir.Guard {
-	return func(cd ir.Cond) (bool, bool) {
-		b, ok := cd.V.(*ssa.BinOp)
-		if !ok {
-			return false, false
-		}
-		// (GetHeight() - governanceView.Height) >= config.MaxBlockChangeView
-		if b.Op != token.GEQ {
-			return false, false
-		}
-		sub, ok := ir.Strip(b.X).(*ssa.BinOp)
+	// (GetHeight() - governanceView.Height) >= config.MaxBlockChangeView, in any relational
+	// form (`elapsed < Max` rejecting, operands swapped, …)
+	isElapsed := func(v ssa.Value) bool {
+		sub, ok := ir.Strip(v).(*ssa.BinOp)
 		if !ok || sub.Op != token.SUB {
-			return false, false
+			return false
 		}
 		call, _ := ir.CallOf(sub.X)
 		if call == nil || !ir.IsMethod(call, ir.PkgPath(pkNative), "NativeService", "GetHeight") {
-			return false, false
+			return false
 		}
 		_, f1, ok1 := fieldLoad(sub.Y)
-		_, f2, ok2 := fieldLoad(b.Y)
-		if !ok1 || !ok2 || f1 != "Height" || f2 != "MaxBlockChangeView" {
-			return false, false
-		}
-		return true, true
+		return ok1 && f1 == "Height"
 	}
+	isMax := func(v ssa.Value) bool {
+		_, f2, ok2 := fieldLoad(ir.Strip(v))
+		return ok2 && f2 == "MaxBlockChangeView"
+	}
+	return relGuard("elapsed >= MaxBlockChangeView", isElapsed, isMax, token.GEQ).G
 }
 
 // checkInitConfig: writes dominated by a nil-check of a CacheDB.Get whose key
